@@ -45,12 +45,13 @@ type Script struct {
 	epochFrontier map[int]string
 	nepoch   int
 	strlits  map[string]string
+	oldEq    map[string]string // heap version -> version it agrees with on all objects older than the entry frontier
 	sfInfos  map[string]*specFuncInfo
 	errConsts []string
 }
 
 func NewScript() *Script {
-	return &Script{sorts: NewSorts(), declared: map[string]bool{}, tagSort: map[string]string{}, epochPar: map[int][]epochParent{}, epochFrontier: map[int]string{}, strlits: map[string]string{}}
+	return &Script{sorts: NewSorts(), declared: map[string]bool{}, tagSort: map[string]string{}, epochPar: map[int][]epochParent{}, epochFrontier: map[int]string{}, oldEq: map[string]string{}, strlits: map[string]string{}}
 }
 
 func (sc *Script) emit(format string, a ...interface{}) {
@@ -99,6 +100,14 @@ func (sc *Script) strLit(v string) string {
 	sc.emit("(assert (not (= %s emptystr)))", n)
 	sc.strlits[v] = n
 	return n
+}
+
+// oldBase: the version that `name` is known to agree with on pre-existing objects (itself if unknown).
+func (sc *Script) oldBase(name string) string {
+	if b, ok := sc.oldEq[name]; ok {
+		return b
+	}
+	return name
 }
 
 func (sc *Script) newEpoch(parents []epochParent) int {
@@ -264,6 +273,16 @@ func (sc *Script) merge(name string, edges []edge) *State {
 			term = fmt.Sprintf("(ite %s %s %s)", edges[i].cond, vals[i], term)
 		}
 		n.mem[t] = sc.define("m_"+t, sc.tagSort[t], term)
+		b0 := sc.oldBase(vals[0])
+		sameBase := true
+		for _, v := range vals[1:] {
+			if sc.oldBase(v) != b0 {
+				sameBase = false
+			}
+		}
+		if sameBase {
+			sc.oldEq[n.mem[t]] = b0
+		}
 	}
 	// locals: only those present in all incoming states survive
 	for a, v0 := range edges[0].st.locals {
